@@ -309,7 +309,7 @@ structure Geom (S size startR endR : Nat) (lastOff : Int) (lastLen : Nat) : Prop
 
 /-- what is stored into the cache: under the key `(start, end)` exactly `obj[start:end]` -/
 def StoresHonest (obj : Bytes) (stores : List ((Nat × Nat) × Bytes)) : Prop :=
-  ∀ e ∈ stores, e.2 = slice obj e.1.1 e.1.2
+  ∀ e ∈ stores, e.1.1 < e.1.2 ∧ e.2 = slice obj e.1.1 e.1.2
 
 /-- what `hits` may contain: only true subranges of the object -/
 def GoodHits (obj : Bytes) (S : Nat) (hits : List (Nat × Bytes)) : Prop :=
@@ -439,13 +439,24 @@ theorem fetchAll_ok (obj : Bytes) {S startR endR : Nat} {lastOff : Int} {lastLen
       rcases List.mem_append.mp hob with h | h
       · exact hg o b h
       · exact hsubs_good o b (hfresh_sub _ h)
+    have hsubs_lt : ∀ o b, (o, b) ∈ subs → o < min (o + S) obj.length := by
+      intro o b hob
+      rw [← hsubs] at hob
+      simp only [List.mem_map, Prod.mk.injEq] at hob
+      obtain ⟨o', ho', rfl, _⟩ := hob
+      rw [mem_offsets G.hS v3] at ho'
+      obtain ⟨_, ho2, ho3⟩ := ho'
+      have h1 : o' + S ≤ m.stop := aligned_step ho3 v4 ho2
+      have h2 := G.size_gt
+      have h3 := G.hS
+      omega
     have hst' : StoresHonest obj (acc.stores ++ fresh.map fun x => ((x.1, min (x.1 + S) obj.length), x.2)) := by
       intro e he
       rcases List.mem_append.mp he with h | h
       · exact hst e h
       · simp only [List.mem_map] at h
         obtain ⟨⟨o, b⟩, hx, rfl⟩ := h
-        exact hsubs_good o b (hfresh_sub _ hx)
+        exact ⟨hsubs_lt o b (hfresh_sub _ hx), hsubs_good o b (hfresh_sub _ hx)⟩
     obtain ⟨f, hf1, hf2, hf5, hf3, hf4⟩ := fetchAll_ok obj G ms
       ⟨acc.hits ++ fresh, acc.reads ++ [(m.start, m.stop - m.start)],
         acc.stores ++ fresh.map fun x => ((x.1, min (x.1 + S) obj.length), x.2)⟩
